@@ -1,6 +1,19 @@
 # the transfer scenario family exercises the glue of many properties at once; each property only counts
 # the oracle keys mapped to it in tools/simrun.py
 _X = ('xfer', 24, 400)
+_MTU = ('mtu', 200, 4000)
+_H = ('hostile', 40, 1500)
+_Z = ('zrtt', 60, 1500)
 PROPS = {
-    'C04': dict(sim=[_X], modelled='receive pipeline observed end-to-end: per frame type, frames processed by the receiver <= frames sent by the sender under duplication/replay/corruption/truncation (public ConnectionStats)'),
+    'C17': dict(sim=[_Z], modelled='0-RTT end-to-end (system simulator, scenario zrtt): resumption with early data written before the handshake completes, acceptance or rejection by the server (fresh TLS state), loss masks on the first flights; content oracle on both outcomes (accepted: delivered once; rejected: nothing from the attempt reaches the application, the client restarts on fresh streams), no flow-control error between honest peers, completion'),
+    'C02': dict(sim=[_Z]),
+    'C05': dict(sim=[_Z, _X]),
+    'C01': dict(sim=[_X, _Z], modelled='end-to-end delivery (system simulator, scenarios xfer and zrtt): content/prefix/disjointness/fin oracle on every stream of both real endpoints under loss, duplication, reordering, corruption, truncation and replay'),
+    'C06': dict(sim=[_X]),
+    'C11': dict(sim=[_X]),
+    'C12': dict(sim=[_X, ('migrate', 12, 200)], modelled='in-flight accounting end-to-end (scenarios xfer, migrate): bytes in flight return to zero once everything is acknowledged; aborted and completed migrations (packets abandoned with the path)'),
+    'C16': dict(sim=[_X]),
+    'C03': dict(sim=[_H], modelled='unauthenticated input end-to-end (system simulator, scenario hostile): random and structure-aware mutated datagrams injected into both real endpoints while two connections run: no panic anywhere, the connection that is not attacked is unaffected, connection table bounded'),
+    'C13': dict(sim=[_MTU, _X], modelled='datagram sizing end-to-end (system simulator, scenarios mtu and xfer): every Transmit of both peers checked against the MTU estimate of its time (one single probe excepted), probes against min(upper_bound, peer max_udp_payload_size), rises of the estimate against the probes sent, GSO segment counts, and completion of bulk workloads while the path MTU changes (black-hole fallback)'),
+    'C04': dict(sim=[_X, _H], modelled='forged datagrams end-to-end (scenario hostile): no established connection ends or stalls under unauthenticated injection, a handshake fails only by Version Negotiation; receive pipeline observed end-to-end: per frame type, frames processed by the receiver <= frames sent by the sender under duplication/replay/corruption/truncation (public ConnectionStats)'),
 }
